@@ -558,7 +558,7 @@ def drive(wd, drivebin, groups):
         while pending and len(running) < NCPU:
             key, c, d = pending.pop(0)
             running.append((key, subprocess.Popen(c, cwd=d, stdout=subprocess.DEVNULL, stderr=open(os.path.join(d, "stderr.log"), "w"),
-                                                  text=True, env=dict(os.environ, GOTRACEBACK="all")), time.time()))
+                                                  text=True, env=dict(os.environ, GOTRACEBACK="all", GOMEMLIMIT=os.environ.get("GOMEMLIMIT", "1GiB"))), time.time()))
         still = []
         for key, p, t0 in running:
             if p.poll() is None:
@@ -731,7 +731,7 @@ def run_validation(wd, groups, files, spec, timeout):
         while pending and len(running) < max(2, NCPU - 2):
             key, d, cfg = pending.pop(0)
             meta = os.path.join(d, "meta")
-            cmd = ["java", "-XX:+UseParallelGC", "-Xss64m", "-Xmx3g", "-cp", TLC_CP, "tlc2.TLC", "-workers", "1",
+            cmd = ["java", "-XX:+UseParallelGC", "-Xss64m", "-Xmx2g", "-cp", TLC_CP, "tlc2.TLC", "-workers", "1",
                    "-metadir", meta, "-config", cfg, "LedgerTrace.tla"]
             fo = open(os.path.join(d, "tlc.out"), "w")
             running.append((key, sp.Popen(cmd, cwd=d, stdout=fo, stderr=sp.STDOUT, text=True)))
